@@ -127,6 +127,52 @@ FrameCarried(hasOver, hasOrd, frames) ==
 NoBareFrame(hasOver, hasOrd, frames) == LET r == WindowCall(hasOver, hasOrd, frames) IN
     (\E k \in DOMAIN r.ids : r.ids[k] \in {"ROWS", "RANGE"}) => r.ids[1] = "OVER"
 
+\* ---- GROUP BY modifiers: groupby / rollup / rollup(vendor="mysql") / with_totals as actions on the grouping state
+\*   s = [items |-> Seq([r |-> BOOLEAN, cols |-> Seq(STRING)]), my |-> BOOLEAN, tot |-> BOOLEAN, st |-> "ok" | exception name]
+\*   call = [m |-> "groupby" | "rollup" | "rollupM" | "totals", cols |-> Seq(STRING)]
+\* What the library does, deviations named:
+\*   DevRollupAfterMysqlAttrErr - any rollup after a MySQL roll-up raises the builtin AttributeError;
+\*   DevRollupMerges            - a generic rollup directly after a generic rollup extends that ROLLUP(..) instead of opening a second one
+\*                                (a groupby in between ends the run);
+\*   DevEmptyRollup             - rollup() without terms is accepted and renders ROLLUP();
+\*   DevTotalsNeedsGroup        - with_totals() without any group is dropped silently;  WITH TOTALS precedes WITH ROLLUP when both are set.
+GroupInit == [items |-> <<>>, my |-> FALSE, tot |-> FALSE, st |-> "ok"]
+PlainItems(cols) == [i \in 1..Len(cols) |-> [r |-> FALSE, cols |-> <<cols[i]>>]]
+GroupStep(s, c) ==
+    IF s.st # "ok" THEN s
+    ELSE IF c.m = "groupby" THEN [s EXCEPT !.items = s.items \o PlainItems(c.cols)]
+    ELSE IF c.m = "totals" THEN [s EXCEPT !.tot = TRUE]
+    ELSE IF s.my THEN [s EXCEPT !.st = "AttributeError"]
+    ELSE IF c.m = "rollupM" THEN (IF c.cols = <<>> /\ s.items = <<>> THEN [s EXCEPT !.st = "RollupException"]
+                                  ELSE [s EXCEPT !.my = TRUE, !.items = s.items \o PlainItems(c.cols)])
+    ELSE IF s.items # <<>> /\ s.items[Len(s.items)].r
+         THEN [s EXCEPT !.items[Len(s.items)] = [r |-> TRUE, cols |-> s.items[Len(s.items)].cols \o c.cols]]
+         ELSE [s EXCEPT !.items = Append(s.items, [r |-> TRUE, cols |-> c.cols])]
+RECURSIVE GroupFold(_, _, _)
+GroupFold(s, hist, i) == IF i > Len(hist) THEN s ELSE GroupFold(GroupStep(s, hist[i]), hist, i + 1)
+RECURSIVE CommaJoin(_, _)
+CommaJoin(seqs, i) == IF i > Len(seqs) THEN <<>> ELSE (IF i > 1 THEN <<",">> ELSE <<>>) \o seqs[i] \o CommaJoin(seqs, i + 1)
+ItemToks(it) == IF it.r THEN <<"ROLLUP", "(">> \o CommaJoin([k \in 1..Len(it.cols) |-> <<it.cols[k]>>], 1) \o <<")">> ELSE it.cols
+GroupRender(s) == IF s.items = <<>> THEN <<>>
+                  ELSE <<"GROUP", "BY">> \o CommaJoin([k \in 1..Len(s.items) |-> ItemToks(s.items[k])], 1)
+                       \o (IF s.tot THEN <<"WITH", "TOTALS">> ELSE <<>>) \o (IF s.my THEN <<"WITH", "ROLLUP">> ELSE <<>>)
+GroupOutcome(hist) == LET s == GroupFold(GroupInit, hist, 1) IN [st |-> s.st, ids |-> IF s.st = "ok" THEN GroupRender(s) ELSE <<>>]
+\* what a caller may rely on.  No column is lost, duplicated or reordered: the columns of the clause are those of the calls, in call order
+GroupKeywords == {"GROUP", "BY", "ROLLUP", "(", ")", ",", "WITH", "TOTALS"}
+RECURSIVE CallCols(_, _)
+CallCols(hist, i) == IF i > Len(hist) THEN <<>> ELSE hist[i].cols \o CallCols(hist, i + 1)
+NoColumnLost(hist) == LET o == GroupOutcome(hist) IN o.st = "ok" /\ o.ids # <<>> => SelectSeq(o.ids, LAMBDA x : x \notin GroupKeywords) = CallCols(hist, 1)
+\* modifiers come after every grouping item, each at most once; WITH ROLLUP exactly when an accepted MySQL roll-up happened
+ModifiersLast(hist) == LET o == GroupOutcome(hist)
+                           withs == {k \in DOMAIN o.ids : o.ids[k] = "WITH"} IN
+    o.st = "ok" => /\ Cardinality(withs) <= 2
+                   /\ \A k \in withs : \A j \in k..Len(o.ids) : o.ids[j] \in {"WITH", "TOTALS", "ROLLUP"}
+                   /\ (o.ids # <<>> => ((\E k \in withs : o.ids[k + 1] = "ROLLUP") <=> (\E i \in DOMAIN hist : hist[i].m = "rollupM")))
+\* brackets balance and every ROLLUP( opens one
+BracketsOK(hist) == LET o == GroupOutcome(hist) IN
+    /\ Cardinality({k \in DOMAIN o.ids : o.ids[k] = "("}) = Cardinality({k \in DOMAIN o.ids : o.ids[k] = ")"})
+    /\ \A k \in DOMAIN o.ids : (o.ids[k] = "ROLLUP" /\ k > 1 /\ o.ids[k - 1] # "WITH") => o.ids[k + 1] = "("
+
 \* The render paths of one statement - str(), repr(), get_sql() without a context, get_sql(the context of its query class) - are one
 \* action: they yield one text (outs = the texts, in that order).
 PathsAgree(outs) == \A i, j \in DOMAIN outs : outs[i] = outs[j]
